@@ -12,7 +12,7 @@ META = {
                   "values, naive and UTC-aware, 3 precisions x 2 constraints, input fraction length 0-9 with symbolic digits; one QF_LIA query per "
                   "feasible path against an independent integer-arithmetic formatter. Right level: the kernels are digit manipulation, where "
                   "boundary values (year < 1000, 999999 us, trailing zeros) are what a sample misses and a solver query covers.",
-    "level_text_more": 'Also: 7 non-zero UTC offsets x 6 instants x 3 tz implementations and plain dates (enumerated, independent days-from-civil arithmetic). Ambiguous local times of a fold-aware tzinfo (fold 0/1) through 4 routes; deep copies and re-reads write the same text.',
+    "level_text_more": 'Also: 7 non-zero UTC offsets x 6 instants x 3 tz implementations and plain dates (enumerated, independent days-from-civil arithmetic). Ambiguous local times of a fold-aware tzinfo (fold 0/1) through 4 routes; deep copies and re-reads write the same text. Rounds 5-6: the process`s local UTC offset is a symbolic variable of the format_datetime model (naive values must not be read in the local zone); witnesses replayed under TZ.',
     "level_note": "Stubs (contract-tested each run): glibc strftime (unpadded %Y), canonical-width strptime, pytz localize/astimezone for UTC, "
                   "STIXdatetime metadata. Non-zero UTC offsets and date inputs are covered only by enumerated cases (C astimezone/combine cannot be modelled); Feb 29 in the symbolic model, "
                   "non-canonical-width input text.",
